@@ -237,6 +237,7 @@ def sample_cast(ctx, tk, f):
         return
     # a later filter  keys = keys[keys == <uncast samples>]
     ok = False
+    filt = None
     for m in fa.cfg.stmts():
         if m.kind == "stmt" and isinstance(m.ast, ast.Assign):
             tm = fa.term(m.ast.value, m)
@@ -245,6 +246,15 @@ def sample_cast(ctx, tk, f):
                 casted = lambda x: x.k == "call" and ("dtype" in dict(x.a[2]))
                 if (casted(l) and not casted(r)) or (casted(r) and not casted(l)):
                     ok = True
+                    filt = m
+    if ok:
+        # the check may be skipped only when the cast cannot change anything (same dtype): never for a whole kind of samples
+        from ..guards import reachable_under
+        subj = lambda x: (x.k == "attr" and x.a[1] == "dtype") or x.k == "param"
+        skipped = [k for k in ("signed", "unsigned", "floating", "bool") if filt.id not in reachable_under(fa, k, subj)]
+        ctx.decide("C12.f", f, "the round-trip check after the cast runs for samples of every dtype kind", not skipped,
+                   "the check is skipped for %s samples: integers of another width or signedness wrap in the cast too (int64 sample 257 -> int8 key 1)" % "/".join(skipped),
+                   node=filt.ast, key="filter-all-kinds", engine="E1")
     ctx.decide("C12.f", f, what, ok, "`%s` wraps samples that do not fit the key dtype onto stored keys (int8 keys [1, 2, 3]: the sample 257 is counted as key 1)" % (t,),
                node=n.ast, engine="E6")
 
